@@ -133,7 +133,7 @@ def run(chk, tier):
                 'closure inlined) every path pushes the very error parameter to the shared panic_reasons list before the '
                 'diverging call. K1/K5: the list is append-only (writers: construction, that push; reader: a full clone). '
                 'K3: teardown forwards the recorded errors before judging counts; teardown_panic/report render all of them.')
-    for cfg in configs(tier, thorough=('std', 'mocks', 'nostd-spin', 'nostd')):
+    for cfg in configs(tier, quick=('std', 'nostd'), thorough=('std', 'mocks', 'nostd-spin', 'nostd')):
         F = load(chk, cfg)
         nostd = 'nostd' in cfg
         # ---- R08.1 explicit panic census on the call path
